@@ -17,7 +17,15 @@ import (
 
 var c24Text string
 
-func c24GetText(_ *antlr.BaseParserRuleContext) string { return c24Text }
+// c24GetText stands in for the token text only while a listener-driving entry
+// has set c24Text; the entries that run the real parser (real.go) get the real
+// text.
+func c24GetText(ctx *antlr.BaseParserRuleContext) string {
+	if c24Text == "" {
+		return ctx.GetText()
+	}
+	return c24Text
+}
 
 type c24Lit struct {
 	text []byte
